@@ -13,7 +13,7 @@ ASSUMPTIONS = ["real storage in the implementation corresponds to imaginary part
 TRUSTED = ["correspondence harness"]
 LEVEL_TEXT = ("Theorem (every scene of the pair model incl. any list of CPML layers, any number of steps): with ghost factors of zero imaginary part and real "
               "data, psi accumulators and source injections, imaginary parts stay exactly zero, so the real parts evolve by the same definitions (= the real run). "
-              "Detector outputs are decided by the implementation predicate; model tied by exact correspondence on complex containers. The fully anisotropic lossless tiers (model/YeeFull.v) have the same theorem for PML-free scenes (C11_full_tensor_complex_stays_real).")
+              "Detector outputs are decided by the implementation predicate; model tied by exact correspondence on complex containers. The fully anisotropic tiers (model/YeeFull.v; lossless and conductive) have the same theorem for PML-free scenes (C11_full_tensor_complex_stays_real, C11_lossy_tensor_complex_stays_real; the conductive tier is tied by per-step correspondence on hand-built complex containers incl. stretched grids).")
 LEVEL_NOTE = "Detector formulas (|.|^2, Re(E x conj H)) are compared on the implementation, not proved."
 TECHNIQUE = "Coq proof (imaginary parts vanish through every ghost read, the CPML loop and the updates) + differential complex-vs-real runs"
 
